@@ -1,4 +1,10 @@
+//! vf-cat — C49 (catalog histories vs a model catalog) and C40b (file caches end-to-end validity).
+mod c40b;
+mod c49;
+
 fn main() {
-    eprintln!("no sub-commands yet");
-    std::process::exit(2);
+    vf_kit::dispatch! {
+        "c49" => c49::C49,
+        "c40b" => c40b::C40b,
+    }
 }
